@@ -36,10 +36,12 @@ TIES = {  # tie lemma -> the Go function(s) it ties (lean/GeomV/C18/Tie.lean)
     "tie_KeepAll": "KeepAll", "tie_KeepTags": "KeepTags", "tie_KeepBounds": "KeepBounds", "tie_Check": "Check",
     "tie_processNodeNoCopy": "processNodeNoCopy", "tie_processWayNoCopy": "processWayNoCopy",
     "tie_processRelationNoCopy": "processRelationNoCopy",
+    "Filter_nf": "Filter (loop structure)", "tie_Filter": "Filter (loop)",
 }
 SEQ = ["bigStep_step", "finishW_st", "runPass_seq"]
 DUP = ["C18_duplicates", "C18_duplicates_schedule_dependent", "closedDB_sound", "closed_of_closedD", "closedD_of_closed"]
-SRC = ["C18_provided_keeps_src", "C18_check_src"]
+SRC = ["C18_provided_keeps_src", "C18_check_src", "C18_filter_src"]
+LOOP = ["procSeq_flag", "passBody_spec", "whileS_loop"]
 
 
 def t1(chk, gobin):
@@ -73,11 +75,11 @@ def t1(chk, gobin):
         if p.returncode == 3:
             drop("T1 tie: Go function(s) outside the translatable subset: " + " | ".join(p.stderr.strip().splitlines())[:900])
             return
-        b = subprocess.run(["lake", "build", T_, T_ + "Filter"], cwd=vcheck.LEAN, stdout=subprocess.PIPE, stderr=subprocess.STDOUT, text=True)
+        b = subprocess.run(["lake", "build", T_, T_ + "Filter", T_ + "Loop"], cwd=vcheck.LEAN, stdout=subprocess.PIPE, stderr=subprocess.STDOUT, text=True)
     if b.returncode == 0:
         return
     open(os.path.join(chk.rundir, "tie.log"), "w").write(b.stdout)
-    errs = re.findall(r"error: (?:\./)?GeomV/C18/(Gen|Tie|TieFilter)\.lean:(\d+):\d+: (.*)", b.stdout)
+    errs = re.findall(r"error: (?:\./)?GeomV/C18/(Gen|TieLoop|TieFilter|Tie)\.lean:(\d+):\d+: (.*)", b.stdout)
     if any(f == "Gen" for f, _, _ in errs) or not errs:
         drop("T1 tie: the regenerated Gen.lean does not elaborate: " + " | ".join(m for f, _, m in errs if f == "Gen")[:600]
              + ("" if errs else b.stdout[-600:]))
@@ -132,7 +134,7 @@ def post(chk, pairs, stats):
 
 CFG = {
     "id": "C18",
-    "lean_modules": ["GeomV.C18.Proofs", "GeomV.C18.ProofsObs", "GeomV.C18.Seq", "GeomV.C18.Dup", "GeomV.C18.Tie", "GeomV.C18.TieFilter"],
+    "lean_modules": ["GeomV.C18.Proofs", "GeomV.C18.ProofsObs", "GeomV.C18.Seq", "GeomV.C18.Dup", "GeomV.C18.Tie", "GeomV.C18.TieFilter", "GeomV.C18.TieLoop"],
     "lean_dirs": ["C18"],
     "exe": "geomv_c18",
     "go_cmd": "c18",
@@ -150,7 +152,7 @@ CFG = {
         "specKeep_bounds", "specKeep_tags", "specKeep_all", "C18_provided_keeps",
         "C18_need_exact", "C18_roots_spec", "C18_observers_schedule_independent", "C18_filter_observers",
         "C18_geom_no_dropped_point", "C18_cancel_no_partial_result",
-    ] + list(TIES) + SRC + SEQ + DUP],
+    ] + list(TIES) + SRC + SEQ + DUP + LOOP],
     "trusted_base": [
         "Lean 4.33.0 kernel; axioms of every theorem printed by #print axioms must be within {propext, Classical.choice, Quot.sound}",
         "model lean/GeomV/C18/Model.lean is tied to /repo/encoding/osm/{extract,keep,check}.go by the correspondence run on every check: "
